@@ -150,6 +150,15 @@ def layout(module, plain=False, deco_rng=None):
         lines.append(IND * ind + text)
         return len(lines)
 
+    astack = [False]          # inside an `async def` (deco_rng files only): for/with may be spelled async
+
+    def var(*forms):
+        """deco_rng files are not executed: header spellings vary (first form = the executed spelling)."""
+        return forms[0] if deco_rng is None else deco_rng.choice(forms)
+
+    def a_():
+        return "async " if (deco_rng is not None and astack[-1] and deco_rng.random() < 0.5) else ""
+
     def blk(b, ind, toplevel_def=False):
         return [st(s, ind) for s in b]
 
@@ -163,10 +172,10 @@ def layout(module, plain=False, deco_rng=None):
         if c == 'pass':
             return ('pass', emit("pass", ind))
         if c == 'return':
-            k = emit("return R(%d)" % (len(lines) + 1), ind)
+            k = emit(var("return R(%d)", "return R(%d)", "return", "return R(%d), 0") .replace("%d", str(len(lines) + 1)), ind)
             return ('return', k)
         if c == 'raise':
-            k = emit("raise X(%d)" % (len(lines) + 1), ind)
+            k = emit(var("raise X(%d)", "raise X(%d)", "raise", "raise X(%d) from None").replace("%d", str(len(lines) + 1)), ind)
             return ('raise', k)
         if c == 'break':
             return ('break', emit("break", ind))
@@ -195,7 +204,7 @@ def layout(module, plain=False, deco_rng=None):
             if c == 'while':
                 k = emit("while C(%d):" % (len(lines) + 1), ind)
             else:
-                k = emit("for _ in I(%d):" % (len(lines) + 1), ind)
+                k = emit(a_() + var("for _ in I(%d):", "for _ in I(%d):", "for _a, _b in I(%d):", "for _.x in I(%d):") .replace("%d", str(len(lines) + 1)), ind)
             body = blk(s[2], ind + 1)
             els = None
             if s[3] is not None:
@@ -207,7 +216,7 @@ def layout(module, plain=False, deco_rng=None):
             body = blk(s[2], ind + 1)
             hs = []
             for (_, hb) in s[3]:
-                hk = emit("except H(%d):" % (len(lines) + 1), ind)
+                hk = emit(var("except H(%d):", "except H(%d):", "except (H(%d), E) as _e:", "except H(%d) as _e:").replace("%d", str(len(lines) + 1)), ind)
                 hs.append((hk, blk(hb, ind + 1)))
             els = None
             if s[4] is not None:
@@ -219,13 +228,14 @@ def layout(module, plain=False, deco_rng=None):
                 fin = blk(s[5], ind + 1)
             return ('try', k, body, hs, els, fin)
         if c == 'with':
-            k = emit("with W(%d):" % (len(lines) + 1), ind)
+            k = emit(a_() + var("with W(%d):", "with W(%d):", "with W(%d) as _w:", "with W(%d) as _w, W(0):", "with (W(%d), W(0)):").replace("%d", str(len(lines) + 1)), ind)
             return ('with', k, blk(s[2], ind + 1))
         if c == 'match':
             k = emit("match S(%d):" % (len(lines) + 1), ind)
             cases = []
             for (_, cb) in s[2]:
-                ck = emit("case _ if G(%d):" % (len(lines) + 1), ind + 1)
+                ck = emit(var("case _ if G(%d):", "case _ if G(%d):", "case [1, *_r] if G(%d):", "case {'a': 1}:", "case 1 | 2:", "case E(args=_x) if G(%d):", "case str() as _s:")
+                          .replace("%d", str(len(lines) + 1)), ind + 1)
                 cases.append((ck, blk(cb, ind + 2)))
             return ('match', k, cases)
         if c == 'def':
@@ -234,11 +244,17 @@ def layout(module, plain=False, deco_rng=None):
                 k = emit(pre + "def f%d():" % s[2], ind)
             else:
                 k = emit(pre + "def f%d(_=M(%d)):" % (s[2], len(lines) + 1), ind)
-            return ('def', k, s[2], blk(s[3], ind + 1))
+            astack.append(pre.endswith("async "))
+            body_ = blk(s[3], ind + 1)
+            astack.pop()
+            return ('def', k, s[2], body_)
         if c == 'class':
             decorate(ind, False)
             k = emit("class K%d(B(%d)):" % (s[2], len(lines) + 1), ind)
-            return ('class', k, s[2], blk(s[3], ind + 1))
+            astack.append(False)
+            body_ = blk(s[3], ind + 1)
+            astack.pop()
+            return ('class', k, s[2], body_)
         raise AssertionError(c)
 
     out = []
